@@ -625,6 +625,11 @@ class Interp:
         nsegs = [x for x in nsegs if x]
         last = nsegs[-1]
         if last.startswith('promoted[') or last.isupper() or re.match(r'^[A-Z][A-Z0-9_]*$', last) or last.startswith('{constant'):
+            if len(nsegs) == 1 and frame is not None and frame.tyenv and last in frame.tyenv:
+                # const generic parameter (`fn copy_words<const N: usize>`), bound by the caller's turbofish
+                mcg = re.fullmatch(r'(\d+)(?:_?usize)?', str(frame.tyenv[last]).strip())
+                if mcg:
+                    return Sc('usize', int(mcg.group(1)))
             r = self.crate.resolve(nsegs)
             if r is not None:
                 mir, name, info = r
